@@ -861,7 +861,7 @@ thread_local! {
 /// the client's stream ends (no close_notify) after k bytes of a TLS session: inside the TLS
 /// handshake, inside a record that carries commands, or exactly between two records. Only the
 /// last can be a legitimate end of the conversation; anywhere else run_on must report an error.
-struct TlsEof {
+pub struct TlsEof {
     positions: Vec<usize>,
     boundaries: Vec<usize>,
     tls12: bool,
@@ -870,7 +870,7 @@ struct TlsEof {
     per_message: bool,
 }
 impl TlsEof {
-    fn new(quick: bool, tls12: bool, per_message: bool) -> Self {
+    pub fn new(quick: bool, tls12: bool, per_message: bool) -> Self {
         PER_MESSAGE.with(|w| w.set(per_message));
         let o = run_tls_with(Some(pki().server_plain.clone()), false, vec![], usize::MAX, 0, tls12);
         PER_MESSAGE.with(|w| w.set(false));
